@@ -160,3 +160,58 @@ theorem filter_const_true {α} (l : List α) : l.filter (fun _ => true) = l := b
 theorem isEmpty_eq_nil {α} {l : List α} (h : l.isEmpty = true) : l = [] := by cases l <;> simp_all
 
 end FpgoVerif.C04
+
+namespace FpgoVerif.C04
+namespace Spec
+variable {β : Type}
+
+theorem insert_of_lookup_none (k : Int) (v : β) (m : List (Int × β)) (h : lookup k m = none) :
+    insert k v m = m ++ [(k, v)] := by
+  induction m with
+  | nil => rfl
+  | cons a t ih =>
+    obtain ⟨ka, va⟩ := a
+    simp only [lookup] at h
+    by_cases hk : ka = k
+    · simp [hk] at h
+    · simp only [hk, if_false] at h
+      simp [insert, hk, ih h]
+
+theorem foldl_insert_fresh (f : Int → Int) (l : List (Int × β)) :
+    ∀ acc : List (Int × β), (∀ kv ∈ l, lookup (f kv.1) acc = none) → (l.map (fun kv => f kv.1)).Nodup →
+      l.foldl (fun r kv => insert (f kv.1) kv.2 r) acc = acc ++ l.map (fun kv => (f kv.1, kv.2)) := by
+  induction l with
+  | nil => intro acc _ _; simp
+  | cons a t ih =>
+    intro acc hacc hnd
+    simp only [List.map_cons, List.nodup_cons] at hnd
+    simp only [List.foldl_cons, List.map_cons]
+    rw [insert_of_lookup_none _ _ _ (hacc a (List.mem_cons_self ..))]
+    rw [ih _ ?_ hnd.2]
+    · simp
+    · intro kv hkv
+      rw [lookup_append, hacc kv (List.mem_cons_of_mem _ hkv)]
+      simp only [lookup]
+      have : f a.1 ≠ f kv.1 := by
+        intro e
+        apply hnd.1
+        rw [e]
+        exact List.mem_map.mpr ⟨kv, hkv, rfl⟩
+      simp [this]
+
+/-- `MapKey(f)` when the transformed keys are pairwise distinct (e.g. `f` injective on a map, whose keys are
+    distinct): every entry keeps its value under the transformed key, in order -/
+theorem mapKeys_of_nodup (f : Int → Int) (m : List (Int × β)) (h : (m.map (fun kv => f kv.1)).Nodup) :
+    mapKeys f m = m.map (fun kv => (f kv.1, kv.2)) := by
+  unfold mapKeys
+  rw [foldl_insert_fresh f m [] (fun _ _ => rfl) h]; rfl
+
+theorem keyFn_injective (k : Nat) : Function.Injective (keyFn k) := by
+  intro a b h
+  match k with
+  | 0 => simp only [keyFn] at h; omega
+  | 1 => simp only [keyFn] at h; omega
+  | n + 2 => simp only [keyFn] at h; omega
+
+end Spec
+end FpgoVerif.C04
